@@ -5,10 +5,10 @@ from vlib import *
 import corr, gen
 
 
-def build_and_audit(c, lean_targets, audit_module, scan_files):
+def build_and_audit(c, lean_targets, audit_module, scan_files, prefixes=None):
     """returns (ok_build, ok_audit); messages are stored on c"""
     ok_build = c.extract_consts() and c.lake_build(["shuttle_model"] + lean_targets)
-    ok_audit = bool(ok_build and audit_module and c.audit(audit_module))
+    ok_audit = bool(ok_build and audit_module and c.audit(audit_module, prefixes))
     hits = c.forbidden_scan(scan_files)
     if hits:
         ok_audit = False
